@@ -173,6 +173,14 @@ def stateless(ctx, family, ops, variant="exact", prop_view=None, consts=None, ca
         raise MachineryFailure("no cases generated for %s/%s" % (family, sorted(ops)))
     if build_as == "fp_plain":
         binp = vlib.build(variant, FP_SOURCES, name="vh_fpi", libs=["-lquadmath"])
+    elif variant == "fp":
+        try:
+            binp = build_family(family, variant, cases_path, lines if build_subset else None)
+        except BuildError:
+            # the exact scalar (used as the reference of the perturbed pass) does not build on this tree
+            log("[build] fp: falling back to the build without the exact twin pass")
+            variant = "fp_notwin"
+            binp = build_family(family, variant, cases_path, lines if build_subset else None)
     else:
         binp = build_family(family, variant, cases_path, lines if build_subset else None)
     run_and_judge(ctx, family + ("-" + variant if variant != "exact" else ""), binp, lines, prop_view or ctx.prop)
@@ -557,6 +565,8 @@ def same_grid(c):
 
 def c02(ctx):
     stateless(ctx, "Spl", {"SplEval"})
+    # evaluation of objects with a past: after moves, (self-)assignments, in-place updates, failed calls
+    lifecycle(ctx, "C02", variants=("exact",))
 
 
 def c15(ctx):
@@ -570,7 +580,16 @@ def c01(ctx):
 
 
 def c04(ctx):
-    stateless(ctx, "Ops", {"OpApply"}, case_filter=lambda c: c["tag"] == "prim")
+    err = None
+    try:
+        stateless(ctx, "Ops", {"OpApply"}, case_filter=lambda c: c["tag"] == "prim")
+    except BuildError as e:
+        err = e         # the exact archetype does not build (C19 reports that): the floating half below still decides
+    # the primitive operators in float, double, long double (E and S from TLC), incl. operands whose coefficients
+    # are all far below machine epsilon in absolute terms
+    stateless(ctx, "Fp", {"FpApply"}, variant="fp", case_filter=lambda c: c["ast"]["k"] in ("Id", "X", "Dx"))
+    if err is not None and not ctx.violations:
+        raise err
 
 
 def c05(ctx):
@@ -768,9 +787,11 @@ def c19(ctx):
     inc = ["-I", os.path.join(vlib.REPO, "include"), "-I", vlib.HARNESS]
     wd = vlib.ensure(os.path.join(ctx.work, "c19"))
     programs = 0
-    for comp in ("g++", "clang++-14"):
-        exe = os.path.join(wd, "c19_rat_" + comp)
-        p = subprocess.run([comp, "-std=c++17", "-O1", "-w", "-DC19_MAIN"] + inc + [os.path.join(vlib.HARNESS, "c19_inst.cpp"), "-o", exe],
+    # two archetypes: the plain exact rational, and the same arithmetic in a type that is not trivially
+    # copyable and notices when an object was relocated or created bitwise (a user type owning resources)
+    for comp, arch in (("g++", []), ("clang++-14", []), ("g++", ["-DVERIF_RAT_SELFCHECK"])):
+        exe = os.path.join(wd, "c19_rat_" + comp + ("_self" if arch else ""))
+        p = subprocess.run([comp, "-std=c++17", "-O1", "-w", "-DC19_MAIN"] + arch + inc + [os.path.join(vlib.HARNESS, "c19_inst.cpp"), "-o", exe],
                            stdout=subprocess.PIPE, stderr=subprocess.STDOUT, text=True, timeout=900)
         programs += 1
         if p.returncode != 0:
@@ -779,12 +800,12 @@ def c19(ctx):
                                stdout=subprocess.PIPE, stderr=subprocess.STDOUT, text=True, timeout=900)
             if q.returncode != 0:
                 raise MachineryFailure("the library does not compile even with double (%s):\n%s" % (comp, q.stdout[-2000:]))
-            ctx.violations.append(({"op": "CompileWithArchetype", "compiler": comp}, {"diagnostics": p.stdout[-6000:]},
+            ctx.violations.append(({"op": "CompileWithArchetype", "compiler": comp, "archetype": arch}, {"diagnostics": p.stdout[-6000:]},
                                    "the exact archetype scalar (documented operations only) no longer compiles, double does"))
             return
         r = subprocess.run([exe], stdout=subprocess.PIPE, stderr=subprocess.STDOUT, timeout=300)
         if r.returncode != 0:
-            ctx.violations.append(({"op": "RunWithArchetype", "compiler": comp}, {"rc": r.returncode, "output": r.stdout.decode(errors="replace")[-2000:]},
+            ctx.violations.append(({"op": "RunWithArchetype", "compiler": comp, "archetype": arch}, {"rc": r.returncode, "output": r.stdout.decode(errors="replace")[-2000:]},
                                    "results with the exact field type are not exact / the run failed"))
             return
     ctx.cov["programs"] = programs
@@ -793,6 +814,10 @@ def c19(ctx):
     stateless(ctx, "Gen", {"Gen"}, prop_view="ALL", case_filter=lambda c: c["p"] <= 2 and c["route"] == 0)
     stateless(ctx, "Ops", {"OpApply", "OpBF"}, prop_view="ALL", case_filter=lambda c: c["tag"] in ("prim", "expr", "bf") and pick(c))
     stateless(ctx, "Spl", {"SplBin", "SplUn", "SplEval", "SplLin"}, prop_view="ALL", case_filter=pick)
+    # the same cross-section (splines, generator, interpolation) with the self-checking archetype
+    stateless(ctx, "Spl", {"SplBin", "SplUn", "SplEval", "SplLin", "SplNew"}, prop_view="ALL", case_filter=pick, variant="exact_self")
+    stateless(ctx, "Gen", {"Gen"}, prop_view="ALL", case_filter=lambda c: c["p"] <= 2 and c["route"] == 0, variant="exact_self")
+    stateless(ctx, "Interp", {"Interp"}, prop_view="ALL", variant="exact_self")
     ctx.cov["explanation"] = ("harness/c19_inst.cpp (explicit instantiation + use of every core template and interpolate<Rat,.,GaussSolver>) "
                               "compiled with g++ 12 and clang++ 14 against the archetype scalar Rat and ran with exact results; "
                               "a cross-section of the exact conformance families was replayed with every contract enabled")
@@ -880,14 +905,55 @@ def main():
 
 
 def replay(ctx, path):
+    """Re-executes the recorded case against the current tree with the binary
+    its family uses and has it judged the same way as in the check."""
+    import subprocess, re
     r = json.load(open(path))
     c = r["case"]
-    if c.get("op") in ("OpApply", "OpBF"):
+    op = c.get("op", "")
+    view = r.get("property", ctx.prop)
+    if op == "History":
+        # one command history: executed by the lifecycle harness, validated sequentially by Trace_Life
+        variant = c.get("variant", "exact")
+        binp = vlib.build(variant, ["vh_life.cpp"], name="vh_life")
+        wd = vlib.ensure(os.path.join(ctx.work, "replay"))
+        sp, tp = os.path.join(wd, "s.ndjson"), os.path.join(wd, "t.ndjson")
+        with open(sp, "w") as f:
+            f.write('{"op":"Reset"}\n' + "\n".join(json.dumps(x) for x in c["history"]) + "\n")
+        n = 1 + len(c["history"])
+        p = subprocess.run([binp, sp, tp], stdout=subprocess.PIPE, stderr=subprocess.PIPE, timeout=900)
+        got = len(open(tp).read().splitlines()) if os.path.exists(tp) else 0
+        bad = None
+        if p.returncode != 0 or got < n:
+            bad = "the harness died at step %d (rc=%d)" % (got, p.returncode)
+        else:
+            t = vlib.run_tlc("Trace_Life", vlib.cfg_text("Trace_Life.cfg", {"PROP": view}), os.path.join(wd, "v"), env={"TRACE": tp}, workers=1, timeout=3000)
+            m = re.search(r"The depth of the complete state graph search is (\d+)", t["out"])
+            if not m:
+                raise MachineryFailure("Trace_Life did not complete on the replayed history")
+            if int(m.group(1)) < n + 1:
+                bad = "step %d is not explained by Trace_Life" % (int(m.group(1)) - 1)
+        if bad:
+            print("VIOLATION property=%s replay=%s" % (ctx.prop, path))
+            print(bad)
+        return 1 if bad else 0
+    if op in ("ThreadedRun", "SharingModel", "CompileWithArchetype", "RunWithArchetype", "SelfChecksChangeValues", "ExamplesModel", "ExamplesAlg", "Apalache", "CRASH"):
+        log("this record describes a whole run, not one case: re-run ./check %s --tier %s" % (ctx.prop, r.get("tier", "quick")))
+        return 2
+    if op in ("OpApply", "OpBF"):
         cases_path, _ = family_gen(ctx, "Ops")
         binp = build_family("Ops", "exact", cases_path)
+    elif op in ("FpGridNew", "FpIntX", "FpInterp"):
+        binp = vlib.build("fp", FP_SOURCES, name="vh_fpi", libs=["-lquadmath"])
+    elif op.startswith("Fp"):
+        cases_path, _ = family_gen(ctx, "Fp")
+        binp = build_family("Fp", "fp", cases_path)
+    elif op.startswith("Ex"):
+        cases_path, _ = family_gen(ctx, "Ex")
+        binp = build_family("Ex", "ex", cases_path)
     else:
         binp = vlib.build("exact", EXACT_SOURCES)
-    run_and_judge(ctx, "replay", binp, [json.dumps(c)], r.get("property", ctx.prop), confirm=False)
+    run_and_judge(ctx, "replay", binp, [json.dumps(c)], view, confirm=False)
     for c, ev, note in ctx.violations:
         print("VIOLATION property=%s replay=%s" % (ctx.prop, path))
         print(json.dumps(ev)[:2000])
